@@ -14,7 +14,7 @@ UF1(asinh) UF1(acosh) UF1(atanh) UF1(log1p) UF1(expm1)
 UF1(log2) UF1(log10) UF1(exp2) UF1(cbrt)
 UF1(floor) UF1(ceil) UF1(round) UF1(trunc) UF1(fabs) UF1(rint) UF1(nearbyint)
 UF1(tgamma) UF1(lgamma) UF1(erf) UF1(erfc)
-UF2(pow) UF2(atan2) UF2(hypot) UF2(fmod) UF2(fmin) UF2(fmax) UF2(copysign) UF2(fdim)
+UF2(atan2) UF2(hypot) UF2(fmod) UF2(fmin) UF2(fmax) UF2(copysign) UF2(fdim)
 double __CPROVER_uninterpreted_powi(double, int);
 double __builtin_powi(double x, int n) { return __CPROVER_uninterpreted_powi(x, n); }
 double __powidf2(double x, int n) { return __CPROVER_uninterpreted_powi(x, n); }
@@ -41,4 +41,14 @@ double log(double x)
 {
   if (VH_RANGE_CHECKS) __CPROVER_assert(x > 0.0, "log argument positive (no underflow of a sum of exponentials)");
   return __CPROVER_uninterpreted_log(x);
+}
+
+/* pow with an optional overflow obligation: for x >= 148 we have ln x >= 4.997, so y * 4.997 > 709.78 means
+ * y ln x > ln(f64::MAX): the IEEE result is +inf (sufficient condition, used to exhibit overflowing powers) */
+double __CPROVER_uninterpreted_pow(double, double);
+double pow(double x, double y)
+{
+  if (VH_RANGE_CHECKS)
+    __CPROVER_assert(!(x >= 148.0 && y * 4.997 > 709.78), "pow result within the finite range");
+  return __CPROVER_uninterpreted_pow(x, y);
 }
